@@ -127,6 +127,9 @@ def g2_templates(full):
         ("g2:decorators", "@d1\n@d2(3)\ndef f(): pass\n@d1\nclass C: pass\n"),
         ("g2:import", "import a.b as c\nfrom d import e, f as g\nfrom . import h\n"),
         ("g2:lambda_nested", "f = lambda x: lambda y: x + y\n"),
+        ("g2:same_line_lambdas", "fs = (lambda x: x - 1, lambda x: x + 1, lambda x: x * 2)\nprint([f(3) for f in fs])\n"),
+        ("g2:same_line_comps", "r = [a for a in range(2)] + [a * 2 for a in range(2)]\ns = {k: 1 for k in 'ab'}, {k: 2 for k in 'ab'}\n"),
+        ("g2:same_line_defs", "if a: f = lambda: 1\nelse: f = lambda: 2\nclass A: x = lambda self: 1; y = lambda self: 2\n"),
         ("g2:yieldfrom", "def f(a):\n    r = yield from a\n    return r\n"),
         ("g2:assert", "def f(a):\n    assert a, 'msg'\n    return a\n"),
         ("g2:delete", "def f(a):\n    b = a\n    del b\n    del a.x, a[0]\n"),
@@ -207,6 +210,14 @@ def _future_annotations_flag():
     return __future__.annotations.compiler_flag
 
 
+TWINS = {}
+
+
+def hash_str(s):
+    import zlib
+    return zlib.crc32(s.encode())
+
+
 def compile_all(items, optimize_levels=(0,), flag_sets=(0,)):
     """[(id, code, recipe)] for everything that compiles on this interpreter.  Compiler flags are explicit (dont_inherit)."""
     import warnings
@@ -221,6 +232,18 @@ def compile_all(items, optimize_levels=(0,), flag_sets=(0,)):
                 except (SyntaxError, ValueError, RecursionError, MemoryError, OverflowError):
                     continue
     return out
+
+
+def twin_sources(src):
+    """Variants of a source whose nested code objects compare *equal* to the original's under CPython's code equality (which ignores
+    the file name and the line table) although they differ: (same text, other file name) and (a blank line inserted after the first
+    def/class header, so the nested code keeps its first line but not its line table)."""
+    import re
+    lines = src.split("\n")
+    for i, l in enumerate(lines[:-1]):
+        if re.match(r"^\s*(async\s+def|def|class)\b.*:\s*$", l) and lines[i + 1].strip():
+            return "\n".join(lines[:i + 1] + [""] + lines[i + 1:])
+    return None
 
 
 def walk_code(code, path=()):
@@ -245,6 +268,29 @@ def corpus(tier, seed, want=("g1", "g2", "g3", "g4")):
     units = compile_all(items, optimize_levels=(0, 1, 2) if full else (0,))
     if not full:   # optimisation levels on a subset in the quick tier
         units += compile_all([it for it in items if it[0].startswith(("g2:def:sig010", "g2:assert", "g2:classbody", "g2:module_doc", "g1:fn"))], optimize_levels=(1, 2))
+    # twins: decoded in the same worker process right after their original (a history-dependent decoder shows up here)
+    import warnings as _w
+    twins = {}
+    with _w.catch_warnings():
+        _w.simplefilter("ignore")
+        for id_, src, mode in items:
+            if len(src) > 6000 or mode != "exec" or not id_.startswith(("g1:", "g2:")):
+                continue
+            if not full and id_.startswith("g2:") and (hash_str(id_) % 3):
+                continue
+            tw = []
+            try:
+                tw.append(compile(src, "<other-file:%s>" % id_, mode, dont_inherit=True, optimize=0))
+                t2 = twin_sources(src)
+                if t2:
+                    tw.append(compile(t2, "<%s>" % id_, mode, dont_inherit=True, optimize=0))
+            except (SyntaxError, ValueError, RecursionError, MemoryError, OverflowError):
+                pass
+            if tw:
+                twins["%s:O0" % id_] = tw
+    units = [(u, c, dict(r, twins=len(twins.get(u, []))) if u in twins else r) for (u, c, r) in units]
+    TWINS.clear()
+    TWINS.update(twins)
     if "g1" in want:   # the same sources compiled with `from __future__ import annotations` in effect (a compile() flag)
         g1 = [it for it in items if it[0].startswith("g1:")]
         units += compile_all(g1 if full else g1[::3], flag_sets=(_future_annotations_flag(),))
